@@ -15,15 +15,29 @@ _HUNK = re.compile(r"^@@ -(\d+)(?:,(\d+))? \+(\d+)(?:,(\d+))? @@")
 def apply_unified(diff_text: str, read) -> dict[str, str] | None:
     """{relpath: new source} or None if some hunk does not match. `read(relpath)` returns the current source."""
     files: dict[str, list] = {}
+    created: set[str] = set()
     cur = None
     hunk = None
+    from_null = False
     for line in diff_text.splitlines():
         if line.startswith("+++ "):
             path = line[4:].strip()
             cur = path[2:] if path.startswith("b/") else path
             files[cur] = []
+            if from_null:
+                created.add(cur)
             hunk = None
-        elif line.startswith("--- ") or line.startswith("diff ") or line.startswith("index "):
+        elif line.startswith("--- "):
+            from_null = line[4:].strip() == "/dev/null"
+            hunk = None
+            continue
+        elif hunk is None and line.startswith(("diff ", "index ", "new file mode", "deleted file mode", "old mode", "new mode", "similarity index",
+                                               "rename from", "rename to")):
+            if line.startswith(("deleted file mode", "rename from")):
+                return None  # not used by any stored patch; would need the overlay to drop a module
+            continue
+        elif line.startswith("diff "):
+            hunk = None
             continue
         elif line.startswith("@@"):
             m = _HUNK.match(line)
@@ -37,10 +51,13 @@ def apply_unified(diff_text: str, read) -> dict[str, str] | None:
             continue
     out = {}
     for rel, hunks in files.items():
-        try:
-            src = read(rel).split("\n")
-        except OSError:
-            return None
+        if rel in created:
+            src = []
+        else:
+            try:
+                src = read(rel).split("\n")
+            except OSError:
+                return None
         offset = 0
         for h in hunks:
             old = [l[1:] for l in h["lines"] if l[0] in (" ", "-")]
